@@ -387,7 +387,11 @@ func (vlog *valueLog) rewrite(bucket uint32, fid uint32) error {
 		if diskVP.Bucket != bucket {
 			return nil
 		}
-		if diskVP.Fid > fid || (diskVP.Fid == fid && diskVP.Offset > ptr.Offset) {
+		// Only the record the LSM tree points at is live. A pointer to a newer location means
+		// this record was superseded; a pointer to an older one means this record was never
+		// logged (its request crashed between the value-log write and the WAL) and writing it
+		// back would publish a value that was never committed.
+		if diskVP.Fid != fid || diskVP.Offset != ptr.Offset {
 			return nil
 		}
 
